@@ -313,7 +313,24 @@ template <class Sys> struct explorer
           }
           detail::last_fn = nullptr;
           detail::arm_watchdog(lim.hang_s);
-          worker(lo, hi, w, W, outfile(w), resume_after);
+          try
+          {
+            worker(lo, hi, w, W, outfile(w), resume_after);
+          }
+          catch (std::exception const &e)
+          {
+            // an exception escaping the code under test: die like a crash so that the parent
+            // attributes it to the announced transition and restarts this worker after it
+            std::fprintf(stderr, "VRT-EXCEPTION: %s: %s\n", demangle(typeid(e).name()).c_str(), e.what());
+            std::fflush(nullptr);
+            _exit(95);
+          }
+          catch (...)
+          {
+            std::fprintf(stderr, "VRT-EXCEPTION: unknown\n");
+            std::fflush(nullptr);
+            _exit(95);
+          }
           // hand the per-signature counters of this worker back through the violation file is
           // not needed: vrt::fail already appended the first three of each signature
           _exit(s.stopped_early ? 7 : 0);
